@@ -150,6 +150,8 @@ pub(crate) struct Plan {
     pub writer_pref: bool,
     pub now: Option<(i64, u32)>,
     pub stdin_delay: Option<i64>,
+    /// `append=<step>:<path>:<hex>`: another process appends these bytes to that file when the run reaches that step
+    pub append: Option<(u64, String, Vec<u8>)>,
     pub choices: Vec<usize>,
     pub picks: Vec<usize>,
     pub trace_path: Option<String>,
@@ -172,6 +174,7 @@ impl Default for Plan {
             writer_pref: false,
             now: None,
             stdin_delay: None,
+            append: None,
             choices: vec![],
             picks: vec![],
             trace_path: None,
@@ -248,6 +251,15 @@ impl Plan {
                     }
                 }
                 "stdin_delay" => p.stdin_delay = v.parse().ok(),
+                "append" => {
+                    let mut it = v.splitn(3, ':');
+                    if let (Some(k), Some(path), Some(hex)) = (it.next(), it.next(), it.next()) {
+                        if let Ok(k) = k.parse::<u64>() {
+                            let bytes: Vec<u8> = (0..hex.len() / 2).filter_map(|i| u8::from_str_radix(&hex[2 * i..2 * i + 2], 16).ok()).collect();
+                            p.append = Some((k, path.to_string(), bytes));
+                        }
+                    }
+                }
                 "choices" => p.choices = parse_list(v),
                 "picks" => p.picks = parse_list(v),
                 "trace" => p.trace_path = Some(v.to_string()),
@@ -457,6 +469,19 @@ impl Sched {
             self.die("DEADLOCK", EXIT_DEADLOCK);
         }
         self.steps += 1;
+        if let Some((k, path, bytes)) = self.plan.append.take() {
+            if self.steps as u64 >= k {
+                // a writer outside the program: the log grows while it is being read
+                use std::io::Write;
+                if let Ok(mut f) = std::fs::OpenOptions::new().append(true).open(&path) {
+                    let _ = f.write_all(&bytes);
+                }
+                let line = format!("G {} world_append {} bytes", self.steps, bytes.len());
+                self.tr(&line);
+            } else {
+                self.plan.append = Some((k, path, bytes));
+            }
+        }
         if self.steps > self.plan.budget {
             self.die("LIVELOCK", EXIT_LIVELOCK);
         }
